@@ -102,6 +102,54 @@ Theorem C14_static_parent_object :
     end.
 Proof. exact StaticProofs.parent_and_name_static. Qed.
 
+(* ... and the call that changes the tree is made on that descriptor with that name:
+   executing create (directory / file / fifo / device node) and remove_file / remove_dir of the
+   emulated backend on the static kernel over any well-formed tree ARRIVES AT mkdirat /
+   mknodat / unlinkat on (descriptor open on the object the in-root walk of the parent path
+   ends on, path_split's last component).  [reaches] is "execution on the static kernel
+   arrives at this call"; that no other tree-changing call is issued before or after it is
+   C03's statement for all answers and is counted on every real trace by tools/props/C14.py. *)
+From PV Require StaticEffects.
+
+Theorem C14_create_dir_acts_on_parent_object :
+  forall s rp F df fz pfuel o2 gh ps rs t root path dirp name o m,
+    StaticProofs.closed s -> fz <> 0%nat -> StaticProofs.chk_static_ok s rp F (OpathM.check_current fz o2 pfuel gh) ->
+    wf s df -> StaticProofs.links_ok s -> rs_kernel rs = false ->
+    path_split path = Some (Ok (dirp, Some name)) -> has_nul dirp = false -> has_nul name = false ->
+    StaticProofs.Frame s F t -> Static.tget t root = Some ROOT ->
+    ewalk s dirp false (has (rs_flags rs) RESOLVE_NO_SYMLINKS) = WOk o ->
+    exists t1 dir, Static.tget t1 dir = Some o /\
+      StaticEffects.reaches s rp t (root_create fz o2 pfuel gh ps rs root path (IDirectory m))
+                                  (Mkdirat dir name (N.land (perm m) MODE_BITS)) t1.
+Proof. intros s rp F df fz pfuel o2 gh ps rs t root path dirp name o m Hcl Hfz Hchk Hwf Hl Hk.
+       exact (StaticEffects.create_dir_reaches s rp F df fz pfuel o2 gh ps Hcl Hfz Hchk Hwf Hl rs Hk t root path dirp name o m). Qed.
+
+Theorem C14_remove_acts_on_parent_object :
+  forall s rp F df fz pfuel o2 gh ps rs t root path dirp name o isdir,
+    StaticProofs.closed s -> fz <> 0%nat -> StaticProofs.chk_static_ok s rp F (OpathM.check_current fz o2 pfuel gh) ->
+    wf s df -> StaticProofs.links_ok s -> rs_kernel rs = false ->
+    path_split path = Some (Ok (dirp, Some name)) -> has_nul dirp = false -> has_nul name = false ->
+    StaticProofs.Frame s F t -> Static.tget t root = Some ROOT ->
+    ewalk s dirp false (has (rs_flags rs) RESOLVE_NO_SYMLINKS) = WOk o ->
+    exists t1 dir, Static.tget t1 dir = Some o /\
+      StaticEffects.reaches s rp t (root_remove_inode fz o2 pfuel gh ps rs root path isdir)
+                                  (Unlinkat dir name (if isdir then AT_REMOVEDIR else 0)) t1.
+Proof. intros s rp F df fz pfuel o2 gh ps rs t root path dirp name o isdir Hcl Hfz Hchk Hwf Hl Hk.
+       exact (StaticEffects.remove_reaches s rp F df fz pfuel o2 gh ps Hcl Hfz Hchk Hwf Hl rs Hk t root path dirp name o isdir). Qed.
+
+Theorem C14_create_node_acts_on_parent_object :
+  forall s rp F df fz pfuel o2 gh ps rs t root path dirp name o raw dev ty,
+    StaticProofs.closed s -> fz <> 0%nat -> StaticProofs.chk_static_ok s rp F (OpathM.check_current fz o2 pfuel gh) ->
+    wf s df -> StaticProofs.links_ok s -> rs_kernel rs = false ->
+    (ty = IFile raw \/ ty = IFifo raw \/ ty = ICharDev raw dev \/ ty = IBlockDev raw dev) ->
+    path_split path = Some (Ok (dirp, Some name)) -> has_nul dirp = false -> has_nul name = false ->
+    StaticProofs.Frame s F t -> Static.tget t root = Some ROOT ->
+    ewalk s dirp false (has (rs_flags rs) RESOLVE_NO_SYMLINKS) = WOk o ->
+    exists t1 dir mode d, Static.tget t1 dir = Some o /\
+      StaticEffects.reaches s rp t (root_create fz o2 pfuel gh ps rs root path ty) (Mknodat dir name mode d) t1.
+Proof. intros s rp F df fz pfuel o2 gh ps rs t root path dirp name o raw dev ty Hcl Hfz Hchk Hwf Hl Hk.
+       exact (StaticEffects.create_node_reaches s rp F df fz pfuel o2 gh ps Hcl Hfz Hchk Hwf Hl rs Hk t root path dirp name o raw dev ty). Qed.
+
 Print Assumptions C14_parent_and_name.
 Print Assumptions C14_split_shape.
 Print Assumptions C14_trailing_slash.
@@ -109,3 +157,6 @@ Print Assumptions C14_final_not_followed.
 Print Assumptions C14_parent_is_in_root_resolution.
 Print Assumptions C14_mknod_mode_decode.
 Print Assumptions C14_static_parent_object.
+Print Assumptions C14_create_dir_acts_on_parent_object.
+Print Assumptions C14_remove_acts_on_parent_object.
+Print Assumptions C14_create_node_acts_on_parent_object.
